@@ -13,12 +13,12 @@ import (
 )
 
 type PropSpec struct {
-	Funcs       []string `json:"funcs"`
-	Lemmas      []string `json:"lemmas"`
-	NotDecided  []string `json:"not_decided"`
-	Explanation string   `json:"explanation"`
-	Bounded     []string `json:"bounded"`
-	MinObls     int      `json:"min_obligations"`
+	Funcs        []string `json:"funcs"`
+	Lemmas       []string `json:"lemmas"`
+	NotDecided   []string `json:"not_decided"`
+	Explanation  string   `json:"explanation"`
+	Bounded      []string `json:"bounded"`
+	MinObls      int      `json:"min_obligations"`
 	ExcludeKinds []string `json:"exclude_kinds"`
 }
 
@@ -386,21 +386,21 @@ func cmdCheck(args []string) int {
 		"seed":        seed,
 		"level":       "proof",
 		"coverage": map[string]any{
-			"obligations":              len(obls) - len(knownHit),
+			"obligations":                len(obls) - len(knownHit),
 			"known_findings_not_counted": knownHit,
-			"discharged":               discharged,
-			"checker_cmd":              fmt.Sprintf("/verif/bin/gowp check -prop %s -tier %s", *prop, *tier),
-			"trusted_base":             tb,
-			"samples":                  samples,
-			"functions_under_contract": funcsOK,
-			"lemmas":                   ps.Lemmas,
-			"discharged_by_backend":    bySolver,
-			"solver_ms_total":          solverMs,
-			"per_obligation":           reports,
-			"bounded":                  ps.Bounded,
-			"not_decided_clauses":      ps.NotDecided,
-			"explanation":              ps.Explanation,
-			"engine_notes":             notes,
+			"discharged":                 discharged,
+			"checker_cmd":                fmt.Sprintf("/verif/bin/gowp check -prop %s -tier %s", *prop, *tier),
+			"trusted_base":               tb,
+			"samples":                    samples,
+			"functions_under_contract":   funcsOK,
+			"lemmas":                     ps.Lemmas,
+			"discharged_by_backend":      bySolver,
+			"solver_ms_total":            solverMs,
+			"per_obligation":             reports,
+			"bounded":                    ps.Bounded,
+			"not_decided_clauses":        ps.NotDecided,
+			"explanation":                ps.Explanation,
+			"engine_notes":               notes,
 		},
 		"assumptions": assumptions,
 		"wall_s":      time.Since(t0).Seconds(),
